@@ -342,7 +342,7 @@ def space(tier):
         if p["twice"]:
             p.pop("faults", None)
         return p
-    sp.add("e2e", 1500 if tier == "quick" else 30_000, e2e)
+    sp.add("e2e", 1500 if tier == "quick" else 150_000, e2e)
 
     def relogin(j, rng):
         p = gen_select(j, rng)
